@@ -361,8 +361,12 @@ func extParse(fr *frame, a []value) value {
 	if err != nil {
 		res = tuple{zero(types.NewPointer(astType(fr.i, "Program"))), errIface(fr, err)}
 	} else {
+		// the converted AST outlives the path (cache): its construction is not journalled
+		saved := theEngine.journalng
+		theEngine.journalng = false
 		c := &aconv{i: fr.i, ptrs: map[uintptr]*value{}}
 		res = tuple{c.conv(reflect.ValueOf(prog)), iface{}}
+		theEngine.journalng = saved
 	}
 	parseCache[key] = res
 	return res
